@@ -27,6 +27,7 @@ DEFAULT = {
     "p_q": 0.3,            # second filter-restricted state q
     "p_b_in_filter": 0.3,  # the filter also restricts the discrete choice b
     "p_reduction_aux": 0.2,   # an auxiliary function written as jnp.sum(jnp.array([...])), used by utility only
+    "p_near_tie": 0.15,        # large utility level + tiny dyadic premia on the discrete choices: near-ties (relative 1e-5)
     "p_dead_label": 0.0,       # (models without continuous state) the last label of h admits no choice: value -inf, reachable
     "p_state_only_filter": 0.15,  # the filter restricts states only: no restricted choice, every discrete choice unrestricted
     "p_choice_filter": 0.25,  # an additional filter over the restricted choice a (and the period) only
@@ -292,6 +293,17 @@ def _rand_model_once(rng, P):  # noqa: C901, PLR0912, PLR0915
         terms.append(mul(ci(-2, 2), var("_period")))
         uargs.append("_period")
         feat["F13"] = True
+    if not P["inexact"] and not log_w and has("p_near_tie") and (has_a or has_b):
+        # values around 64 .. 256 whose differences between discrete choices can be as small as 2^-10: still exact in float32
+        # (17 significant bits), but any "approximately equal" comparison in the code sees a tie
+        terms.append(const(64))
+        if has_a:
+            terms.append(mul(const(F(1, 1024)), var("a")))
+            uargs.append("a")
+        if has_b:
+            terms.append(mul(const(F(-1, 512)), var("b")))
+            uargs.append("b")
+        feat["near_ties"] = True
     if has("p_reduction_aux") and (has_a or has_b):
         # an auxiliary function written as a reduction over a stacked array (jnp.sum(jnp.array([...]))).  It only feeds
         # utility (and can be requested as a target): lcm.simulate applies the transition functions to whole batches
